@@ -69,3 +69,15 @@ Example ex_throwing_push :
   quiet throw_state /\ fault (gl throw_state) = false /\ lst (gl throw_state) = [1%nat] /\
   option_map (fun c => (cs c, israwc c, nct c, ndt c, nfr c)) (getc (gl throw_state) 2) = Some (Freed, true, 0, 0, 1)%nat.
 Proof. vm_compute. split; [split; [reflexivity|]; intros l [<-|[]]; reflexivity|auto]. Qed.
+
+(* allocation failure (the plan is in the program: BeginFail / PushFail / EraseFail make the first allocation inside
+   the call throw std::bad_alloc).  Here: the lazy registration fails once, a push fails, and an erase fails - with the
+   repaired order of erase (record first, eb66dd7) the element stays in the list; at the end nothing faulted, and
+   rcu_exactly_once applies (quiet). *)
+Definition afail_progs : list (list op) :=
+  [[LockWrite; PushFail 5; PushBack 10; PushFail 20; BeginFail 0; Begin 0; EraseFail 0; Deref 0; Release]].
+Definition afail_state := run glob loc tstep (init false afail_progs) (repeat (0%nat, 0%nat) 80).
+Example ex_alloc_failures :
+  quiet afail_state /\ fault (gl afail_state) = false /\ misuse (gl afail_state) = false /\
+  lst (gl afail_state) = [1%nat] /\ contents (gl afail_state) = [1%nat].
+Proof. vm_compute. split; [split; [reflexivity|]; intros l [<-|[]]; reflexivity|auto]. Qed.
